@@ -84,6 +84,13 @@ func genC16Plan(r *sim.Rng, tier string) RelayPlan {
 			pl.Pubs[i].AudioCodec = media.SoundAAC
 		}
 	}
+	// a relay pull that never becomes the input (its origin refuses the connection; no retries): afterwards the stream
+	// is as removable as any other
+	if r.Bool(0.25) {
+		at := r.Intn(len(pl.Ops) + 1)
+		ins := []RelayOp{{Kind: "pull_refused", Pub: r.Intn(2)}, {Kind: "settle"}}
+		pl.Ops = append(pl.Ops[:at:at], append(ins, pl.Ops[at:]...)...)
+	}
 	// a fresh consumer right after an input has ended (and before the next one of that name starts)
 	if r.Bool(0.4) {
 		for i := 0; i < len(pl.Ops); i++ {
